@@ -1174,9 +1174,12 @@ func NewVHostPathRewriter(slashesCount int) PathRewriteFunc {
 			host = strInvalidHost
 		}
 		b := bytebufferpool.Get()
+		// host and path are decoded already and SetPathBytes decodes its argument:
+		// quote them, so that "%2e%2e" in either stays the literal it was after the
+		// one decoding of the request target (and of nothing, for the host)
 		b.B = append(b.B, '/')
-		b.B = append(b.B, host...)
-		b.B = append(b.B, path...)
+		b.B = bytesconv.AppendQuotedPath(b.B, host)
+		b.B = bytesconv.AppendQuotedPath(b.B, path)
 		ctx.URI().SetPathBytes(b.B)
 		bytebufferpool.Put(b)
 
